@@ -158,9 +158,19 @@ def run(ctx):
             ctx.violation("C11:zero-coupling:%s" % x["what"], "%s: %s" % (cid, x), {"zero": [c, t]})
     # commuting models with the lattice probe
     counts_by_n = {c["n"]: c["counts"] for c in r.cases}
+    # every pattern of repeated coupling eigenvalues (tuples from Degeneracy.tla; the imaginary-time backend has
+    # its own degeneracy reduction, TIBaseBackend._unique)
+    from harness.props.c06 import DEG_CFG
+    dg = ctx.tlc("Degeneracy", DEG_CFG, label="coupling eigenvalue tuples", workers=1,
+                 constants={"OSpace": "UNION {[1..d -> (-1)..1] : d \\in 2..%d}" % (3 if quick else 4), "Emit": "TRUE"})
+    erng = probes.rng_for(ctx.seed, "c11-energies")
+    pats = [(c["o"], [round(float(x), 3) for x in erng.normal(size=len(c["o"])) * 0.4]) for c in dg.cases]
+    nsel = sorted(counts_by_n)
     cjobs = [(counts_by_n[n], n, o, en, 0.8, ctx.seed)
-             for n in sorted(counts_by_n) for o, en in (([1, -1], [0.3, -0.1]), ([0, 1, 3], [0.2, 0.0, -0.4]),
-                                                        ([2, 0, 2], [0.1, 0.5, 0.1]))]
+             for i, (o, en) in enumerate(pats) for n in ([nsel[i % len(nsel)]] if quick else nsel[:3])]
+    cjobs += [(counts_by_n[n], n, o, en, 0.8, ctx.seed)
+              for n in nsel for o, en in (([1, -1], [0.3, -0.1]), ([0, 1, 3], [0.2, 0.0, -0.4]), ([2, 0, 2], [0.1, 0.5, 0.1]),
+                                          ([1, 1, 0, 2], [0.1, 0.2, -0.3, 0.0]), ([1, 0, 1, -1], [0.0, 0.3, 0.1, -0.2]))]
     for j, mm in zip(cjobs, core.pmap(commuting_job, cjobs)):
         cid = {"n_steps": j[1], "o": j[2], "E": j[3], "check": "commuting model, lattice bath"}
         ctx.case(cid, nontrivial=True)
